@@ -357,9 +357,13 @@ func init() {
 		st.assumeRaw(Gt(body, IntLit(0)))
 		heapFieldLV{p: resp, field: "Body", ftype: bt}.Store(x, st, OpaqueV{T: body, Type: bt})
 		heapFieldLV{p: resp, field: "Request", ftype: x.resolveType(structFieldType(rt, "Request"))}.Store(x, st, req)
+		// net/http's client accepts any three digits as a status ("HTTP/1.1 099 Weird" parses):
+		// 0..999.  An answer whose code is below 100 is not an HTTP answer - it counts as a
+		// failed origin exchange (upfails) although Do returns no error.
 		sc := Var(x.fresh("statuscode"), SInt)
-		st.assumeRaw(And(Ge(sc, IntLit(100)), Le(sc, IntLit(999))))
+		st.assumeRaw(And(Ge(sc, IntLit(0)), Le(sc, IntLit(999))))
 		heapFieldLV{p: resp, field: "StatusCode", ftype: types.Typ[types.Int]}.Store(x, st, IntV{sc})
+		st.ghost["upfails"] = IntV{Add(st.ghostInt("upfails"), Ite(Lt(sc, IntLit(100)), IntLit(1), IntLit(0)))}
 		k(st, []Value{resp, errv})
 	}
 }
